@@ -328,6 +328,8 @@ pub struct BatchCfg {
     pub verif_dir: String,
     pub runs_override: Option<u64>,
     pub write_evidence: bool,
+    /// debugging aid: only keep violations whose signature contains this
+    pub only: Option<String>,
 }
 
 struct Found<S> {
@@ -421,6 +423,7 @@ pub fn run_batch<C: Check>(c: Arc<C>, cfg: BatchCfg) -> i32 {
         let tier = cfg.tier;
         let wall_cap = cfg.wall_cap;
         let known = known.clone();
+        let only = cfg.only.clone();
         handles.push(
             std::thread::Builder::new()
                 .name(format!("sim-{w}"))
@@ -485,6 +488,11 @@ pub fn run_batch<C: Check>(c: Arc<C>, cfg: BatchCfg) -> i32 {
                                 }));
                             }
                             for v in vs {
+                                if let Some(f) = &only {
+                                    if !v.signature.contains(f.as_str()) {
+                                        continue;
+                                    }
+                                }
                                 if let Some(k) = is_known(&known, c.property(), &v.signature) {
                                     *o.known_hits.entry(k.signature.clone()).or_insert(0) += 1;
                                 } else if o.found.len() < 64 && !o.found.iter().any(|f| f.v.signature == v.signature) {
